@@ -273,9 +273,8 @@ class ModeDReader(MeterReaderBase[DataReadout]):
         """
         readouts_received: list[DataReadout] = []
 
-        if len(self._buffer) > 8191:
-            self._is_int_hunt_mode = True
-            self._buffer.trim_buffer_to_flag_or_end()
+        # Lines read by previous calls are no longer needed.
+        self._buffer.trim_buffer_to_current_position()
 
         self._buffer.extend(data_chunk)
 
@@ -285,6 +284,11 @@ class ModeDReader(MeterReaderBase[DataReadout]):
         while True:
             line = self._buffer.pop()
             if line is None:
+                if self._buffer.unread_length > 8191:
+                    # Never ending line. Discard it and hunt for next readout.
+                    self._buffer.clear()
+                    self._raw_data.clear()
+                    self._is_int_hunt_mode = True
                 return readouts_received
 
             if self.is_in_hunt_mode:
@@ -302,6 +306,10 @@ class ModeDReader(MeterReaderBase[DataReadout]):
                     _LOGGER.debug("Readout received:\n%s", readout)
                     self._raw_data.clear()
                     self._is_int_hunt_mode = True
+                elif len(self._raw_data) > 8191:
+                    # Never ending readout. Discard it and hunt for next readout.
+                    self._raw_data.clear()
+                    self._is_int_hunt_mode = True
 
 
 class _ReaderBuffer:
@@ -314,6 +322,16 @@ class _ReaderBuffer:
     def __len__(self) -> int:
         """Bytes in buffer."""
         return len(self._buffer)
+
+    @property
+    def unread_length(self) -> int:
+        """Number of bytes not yet read from buffer."""
+        return len(self._buffer) - self._buffer_pos
+
+    def clear(self) -> None:
+        """Discard all bytes in buffer."""
+        self._buffer.clear()
+        self._buffer_pos = 0
 
     def pop(self) -> bytearray | None:
         """Pop one line from buffer."""
